@@ -996,6 +996,73 @@ fn sparse_batch_sweep<F: PrimeField>(ctx: &mut Ctx, p: u64, ns: &[usize]) {
     });
 }
 
+/// Sparse MLEs with more than 1024 / 2048 non-zero entries (n = 11, 12; 13 in thorough): the batch window
+/// ceil(log2(#entries)) reaches 11 and 12 coordinates, i.e. equality tables of 2^11 / 2^12 weights.  `evaluate`
+/// at a few points and `fix_variables` for the prefix lengths around the window, against the u64 model.
+fn sparse_large_window_sweep<F: PrimeField>(ctx: &mut Ctx, p: u64, ns: &[usize]) {
+    let mut cases: Vec<(usize, usize, usize)> = Vec::new();
+    for n in ns {
+        for c in [1025usize, 2047, 2048, 2049, 4097] {
+            if c <= 1 << n {
+                for pat in 0..2 {
+                    cases.push((*n, c, pat));
+                }
+            }
+        }
+    }
+    let tag: Vec<String> = ns.iter().map(|n| n.to_string()).collect();
+    ctx.sweep(&format!("sparse_mle_large_windows.F{p}.n={}", tag.join("+")), cases.len() as u64, |i, loc| {
+        let (n, c, pat) = cases[i as usize];
+        let size = 1usize << n;
+        let idx: Vec<usize> = (0..c).map(|j| if pat == 0 { (j * 5 + 1) % size } else { size - 1 - j }).collect();
+        let pairs: Vec<(usize, u64)> = idx.iter().enumerate().map(|(j, ix)| (*ix, (j as u64 * 3 % (p - 1)) + 1)).collect();
+        let mut t = vec![0u64; size];
+        for (ix, v) in &pairs {
+            t[*ix] = *v;
+        }
+        let window = {
+            let mut w = 0usize;
+            while (1usize << w) < c {
+                w += 1;
+            }
+            w
+        };
+        loc.class_if(window >= 11, "sparse:batch_window>=11");
+        loc.class_if(window >= 11 && window % 2 == 1, "sparse:batch_window_odd>=11");
+        loc.class_if(window >= 12, "sparse:batch_window>=12");
+        loc.class("sparse:entries>1024");
+        if loc.sampling() {
+            loc.sample(format!("F_{p} sparse MLE n={n} with {c} entries (pattern {pat}): evaluate at 4 points, fix_variables for prefix lengths {}..={n}", n.saturating_sub(3)));
+        }
+        let fp: Vec<(usize, F)> = pairs.iter().map(|(ix, v)| (*ix, fe(*v))).collect();
+        let s = Sparse::<F>::from_evaluations(n, &fp);
+        if !chk(loc, "sparse_construct", s.num_vars == n && s.table().as_deref() == Some(&t[..]), || format!("Sparse::from_evaluations(n={n}, {c} entries, pattern {pat}) has another table")) {
+            return;
+        }
+        let pts: Vec<Vec<u64>> = vec![
+            (0..n).map(|_| 2 % p).collect(),
+            (0..n).map(|k| [p - 1, 2 % p, 1, 0][k % 4]).collect(),
+            (0..n).map(|k| (k as u64 * k as u64 + 2) % p).collect(),
+            (0..n).map(|k| if k == n - 1 { 2 % p } else { 1 }).collect(),
+        ];
+        for x in &pts {
+            let want = m_eval(p, &t, x);
+            let got = un(&s.evaluate(&fv::<F>(x)));
+            chk(loc, "sparse_evaluate", got == want, || format!("sparse MLE n={n}, {c} entries, pattern {pat}: evaluate({x:?}) = {got} want {want} (mod {p})"));
+        }
+        for dl in [1usize, n.saturating_sub(3), n - 2, n - 1, n] {
+            for x in &pts[..3] {
+                let r = &x[..dl];
+                let want = m_fix(p, &t, r);
+                let xs = s.fix_variables(&fv::<F>(r));
+                chk(loc, "sparse_fix_variables", xs.num_vars == n - dl && xs.table().as_deref() == Some(&want[..]), || {
+                    format!("sparse MLE n={n}, {c} entries, pattern {pat}: fix_variables({r:?}) = {} want n={} table={want:?} (mod {p})", xs.describe(), n - dl)
+                });
+            }
+        }
+    });
+}
+
 fn sparse_pair_sweep<F: PrimeField>(ctx: &mut Ctx, p: u64, n: usize, max_len: usize) {
     let size = 1u64 << n;
     let a = size * p;
@@ -1806,6 +1873,13 @@ fn per_field<F: PrimeField>(ctx: &mut Ctx, p: u64) {
     } else {
         sparse_batch_sweep::<F>(ctx, p, &[5, 6, 7]);
     }
+    if p == 5 {
+        if quick {
+            sparse_large_window_sweep::<F>(ctx, p, &[11, 12]);
+        } else {
+            sparse_large_window_sweep::<F>(ctx, p, &[11, 12, 13]);
+        }
+    }
     for n in 0..=3usize {
         // pairs of sparse operands
         let ml = match (n, p) {
@@ -1879,6 +1953,9 @@ fn main() {
         "concat:result_n>=4",
         "sparse_fix:batch_window>=4_several_batches",
         "sparse_fix:batch_window>=5_several_batches",
+        "sparse:entries>1024",
+        "sparse:batch_window_odd>=11",
+        "sparse:batch_window>=12",
         "sparse:entries=2^k",
         "sparse:entries=2^k+1",
         "sparse:entries=2^k-1",
